@@ -94,6 +94,9 @@ def run(rep):
             fam[1].append([hx(b"a.txt/inner"), "f", 1, 5]) if not any(bytes.fromhex(e[0]) == b"a.txt" or bytes.fromhex(e[0]).startswith(b"a.txt/") for e in fam[1]) else None
             fam[0].append([hx(b"a.txt"), "f", 2, 5]) if not any(bytes.fromhex(e[0]) == b"a.txt" or bytes.fromhex(e[0]).startswith(b"a.txt/") for e in fam[0]) else None
             fam[2].append([hx(b"a.txt"), "l", 3, 0]) if not any(bytes.fromhex(e[0]) == b"a.txt" or bytes.fromhex(e[0]).startswith(b"a.txt/") for e in fam[2]) else None
+        if k % 2 == 0:
+            # the second tree is the first with some executable bits flipped and nothing else changed
+            fam[1] = [[p, {"f": "x", "x": "f"}.get(kd, kd) if rng.random() < 0.6 else kd, sd, sz] for p, kd, sd, sz in fam[0]]
         reqs.append({"fn": "session", "trees": fam, "edits": [], "switches": [[i, j] for i in range(3) for j in range(3) if i != j]})
     for q, r in zip(reqs, impl.run(reqs)):
         case = {"trees": [[(bytes.fromhex(p).decode("latin1"), k, sd, sz) for p, k, sd, sz in t] for t in q["trees"]], "edits": [[e[0]] + ([bytes.fromhex(e[1]).decode("latin1")] if len(e) > 1 else []) for e in q["edits"]]}
@@ -133,6 +136,8 @@ def run(rep):
                 continue
             if not sw["wt_ok"]:
                 rep.fail("switch-wrong-content", "after switching %d -> %d the work tree differs at %s" % (sw["from"], sw["to"], sw.get("diff")), c2)
+            if sw.get("index_tree_ok") is False:
+                rep.fail("switch-index-wrong", "after switching %d -> %d the index does not hold the target tree" % (sw["from"], sw["to"]), c2)
             if sw["status"] != empty:
                 rep.fail("switch-not-clean", "status after switching %d -> %d: %s" % (sw["from"], sw["to"], {k: names(v) for k, v in sw["status"].items() if v}), c2)
 
